@@ -84,7 +84,10 @@ def check_c14(prop, tier, replay=None):
         bases += getattr(gen, name)(rng, n)
     bases += gen.calendars(rng, n, zones=[None])
     jobs, pairs, payload = [], [], {}
-    for pid, p in bases:
+    for j, (pid, p) in enumerate(bases):
+        m = re.fullmatch(r"\+(\d+)w", p.length)
+        if m and j % 2:
+            p.length = "+%dd" % (7 * int(m.group(1)))       # the same horizon written in days: the declared end travels with the start
         bid = "C14-%s@0" % pid
         A = p.abstract()
         jobs.append({"id": bid, "text": p.render(), "scenarios": [0], "abstract": A})
